@@ -98,7 +98,8 @@ func init() {
 			return nil
 		},
 		pk + "verifDelayBound": func(r *Run, fr *frame, a []Value) Value {
-			r.delayBound = r.concreteInt(a[0].(*Term), "delay bound")
+			// budget counted from now on: d more delays than already used
+			r.delayBound = r.sched.delays + r.concreteInt(a[0].(*Term), "delay bound")
 			return nil
 		},
 		pk + "verifTimerMode": func(r *Run, fr *frame, a []Value) Value {
